@@ -19,13 +19,14 @@ Notation M_base := (base thr_clear_on_catch).
    ALONE after the same instructions with the same answers *)
 Theorem isolation : forall (ps : list (list op)) (sched : list tid) t l s,
   nth_error (thr (M_run sched (ginit ps))) t = Some (l, s) ->
-  exists p, nth_error ps t = Some p /\ l = M_alone (hist s) (M_base t p (past s)).
+  exists p, nth_error ps t = Some p /\ l = M_alone (hist s) (M_base t p (tls0 s) (past s)).
 Proof. exact (ThreadsProofs.isolation_core thr_clear_on_catch thr_trylock_busy_result). Qed.
 Print Assumptions isolation.
 
 (* 1b. no try-once section refused (e.g. the program has none): exactly the stand-alone run of `steps s` instructions *)
 Theorem isolation_plain : forall (ps : list (list op)) (sched : list tid) t l s,
-  nth_error (thr (M_run sched (ginit ps))) t = Some (l, s) -> past s = [] -> forallb (fun x => x) (hist s) = true ->
+  nth_error (thr (M_run sched (ginit ps))) t = Some (l, s) -> past s = [] -> tls0 s = [] ->
+  forallb (fun x => x) (hist s) = true ->
   exists p, nth_error ps t = Some p /\ l = alone_n thr_clear_on_catch (steps s) (linit t p).
 Proof. exact (ThreadsProofs.isolation_plain thr_clear_on_catch thr_trylock_busy_result). Qed.
 Print Assumptions isolation_plain.
@@ -33,19 +34,33 @@ Print Assumptions isolation_plain.
 (* 2. a finished thread has computed exactly its complete stand-alone result *)
 Theorem isolation_finished : forall (ps : list (list op)) (sched : list tid) t l s,
   nth_error (thr (M_run sched (ginit ps))) t = Some (l, s) -> done l = true ->
-  exists p, nth_error ps t = Some p /\ forall h', M_alone (h' ++ hist s) (M_base t p (past s)) = l.
+  exists p, nth_error ps t = Some p /\ forall h', M_alone (h' ++ hist s) (M_base t p (tls0 s) (past s)) = l.
 Proof. exact (ThreadsProofs.isolation_finished thr_clear_on_catch thr_trylock_busy_result). Qed.
 Print Assumptions isolation_finished.
 
 (* 3. frame: an instruction of thread t leaves the core of every other thread unchanged (never diverts its
-   control flow, never changes its exception depth/active, never finalises its objects) — the one exception is
-   the call of a Thread object whose previous run has finished and been joined, which starts its next run *)
+   control flow, never changes its exception depth/active, never finalises its objects, never touches its TLS) — the
+   two exceptions are calls: of a Thread object whose previous run has finished and been joined (next run), and
+   of a fresh copy of a Thread object (first run, with the TLS snapshot it was copied with) *)
 Theorem step_frame : forall t t' g, t <> t' ->
   core (M_step t g) t' = core g t' \/
-  exists lu su p, nth_error (thr g) t' = Some (lu, su) /\ done lu = true /\ joined su = true /\
-                  nth_error (progs g) t' = Some p /\ core (M_step t g) t' = Some (restart lu p).
+  (exists lu su p, nth_error (thr g) t' = Some (lu, su) /\ done lu = true /\ joined su = true /\
+                   nth_error (progs g) t' = Some p /\ core (M_step t g) t' = Some (restart lu p)) \/
+  (exists lv sv p tau, nth_error (thr g) t' = Some (lv, sv) /\ started sv = false /\
+                   nth_error (progs g) t' = Some p /\ core (M_step t g) t' = Some (set_tls (linit t' p) tau)).
 Proof. exact (ThreadsProofs.step_frame thr_clear_on_catch thr_trylock_busy_result). Qed.
 Print Assumptions step_frame.
+
+(* 3b. a copy of the current Thread, called: own fresh exception record and collector, TLS = snapshot of the caller's *)
+Theorem copy_of_self : forall t g v lv sv p l s k,
+  nth_error (thr g) t = Some (l, s) -> aborted g = false -> started s = true -> done l = false ->
+  fatal l = false -> ub s = false -> code l = KOp (OSpawnCopy v t) :: k ->
+  nth_error (thr g) v = Some (lv, sv) -> started sv = false -> nth_error (progs g) v = Some p -> t <> v ->
+  exists l' s', nth_error (thr (M_step t g)) v = Some (l', s') /\
+    tls l' = tls l /\ exc l' = mkE 0 false None /\ reg l' = [] /\ fin l' = [] /\ out l' = [] /\ code l' = map KOp p /\
+    started s' = true /\ joined s' = false /\ tls0 s' = tls l.
+Proof. exact (ThreadsProofs.copy_of_self_gen thr_clear_on_catch thr_trylock_busy_result). Qed.
+Print Assumptions copy_of_self.
 
 (* 4. whatever a thread's collector registers or finalises was allocated by that thread *)
 Theorem no_foreign_finalisation : forall (ps : list (list op)) (sched : list tid) t l s o,
@@ -110,7 +125,7 @@ Theorem join_publishes : forall (ps : list (list op)) (sched : list tid) t u lu 
   aborted g = false -> started s = true -> done l = false -> fatal l = false -> ub s = false ->
   code l = KOp (OPeek u) :: k ->
   done lu = true /\
-  (forall h', M_alone (h' ++ hist su) (M_base u p (past su)) = lu) /\
+  (forall h', M_alone (h' ++ hist su) (M_base u p (tls0 su) (past su)) = lu) /\
   option_map (fun ls => seen (snd ls)) (nth_error (thr (M_step t g)) t) = Some ((u, out lu) :: seen s).
 Proof. exact (ThreadsProofs.join_publishes_gen thr_clear_on_catch thr_trylock_busy_result). Qed.
 Print Assumptions join_publishes.
@@ -195,4 +210,11 @@ Proof. vm_compute. do 2 eexists. repeat split; reflexivity. Qed.
 Example reuse_nonvacuous :
   exists lu su, nth_error (thr (M_run [0; 1; 1; 0; 0] (ginit [[OSpawn 1; OJoin 1; OSpawn 1; OJoin 1; OPeek 1]; [OEmit 7]]))) 1 = Some (lu, su)
                 /\ joined su = false /\ past su = [[true; true]] /\ out lu = [EvRestart; EvExit []; EvEmit 7].
+Proof. vm_compute. do 2 eexists. repeat split; reflexivity. Qed.
+
+(* a worker inside a try block (depth 1) with one TLS binding clones itself: the clone starts at depth 0 with
+   the binding, and a later binding of the source is not seen by the clone *)
+Example copy_nonvacuous :
+  exists l s, nth_error (thr (M_run [0; 1; 1; 1; 1; 2; 2] (ginit [[OSpawn 1]; [OTlsSet 1 5; OTry [OSpawnCopy 2 1; OTlsSet 2 6; OObs] [] []]; [OObs; OTlsMem 2]]))) 2 = Some (l, s)
+              /\ out l = [EvMem 2 false; EvObs 0 false 1 0] /\ tls0 s = [(1, 5)].
 Proof. vm_compute. do 2 eexists. repeat split; reflexivity. Qed.
